@@ -53,13 +53,17 @@ def _vm_history(t, out):
     it = iter(t)
     nx = lambda: next(it)
     main, other, pb, _plain, rst = nx(), nx(), nx(), nx(), nx()
+    import re as _re
+    _m = _re.search(r"m([0-9]+)$", _plain)
+    limit = "(eff_limit %s)" % (_m.group(1) if _m else "0")
     mts = [nx() for _ in range(int(nx()))]
     k = nx()
     kor = "None"
     if k != "-":
         f = nx()
         c = {"dig-garbage": "KDigGarbage", "dig-drop": "KDigDrop", "len-inc": "KLenInc", "len-drop": "KLenDrop",
-             "type-other": "KTypeOther", "type-garbage": "KTypeGarbage", "type-drop": "KTypeDrop", "loc-drop": "KLocDrop"}.get(f)
+             "type-other": "KTypeOther", "type-garbage": "KTypeGarbage", "type-drop": "KTypeDrop", "loc-drop": "KLocDrop",
+             "name-unknown": "KNameUnknown"}.get(f)
         if f == "dig-other":
             c = "(KDigOther %s)" % _s(nx())
         if f == "status":
@@ -106,8 +110,8 @@ def _vm_history(t, out):
         exp.append("(%d%%nat, %s)" % (0 if tr == "-" else tr.count(";") + 1, r))
     bit = lambda i: "true" if pb[i] == "1" else "false"
     prof = "(mkProfile %s %s %s %s %s)" % tuple(bit(i) for i in range(5))
-    call = ("(run_history (fun c => %s) vm_parse_mt (fun c => %s) %s %s %s %s %s %s %s %s)"
-            % (hfun, sfun, _s(main), _s(other), "[" + "; ".join(_s(m) for m in mts) + "]" if mts else "(@nil str)", prof, kor,
+    call = ("(run_history (fun c => %s) vm_parse_mt (fun c => %s) %s %s %s %s %s %s %s %s %s)"
+            % (hfun, sfun, _s(main), _s(other), "[" + "; ".join(_s(m) for m in mts) + "]" if mts else "(@nil str)", limit, prof, kor,
                "[" + "; ".join("(%s, %s)" % (_s(pool[i][1]), _s(pool[i][0])) for i in others) + "]" if others else "(@nil (str * str))",
                ["RSUnknown", "RSSupported", "RSUnsupported"][int(rst)],
                "[" + "; ".join(ops) + "]"))
@@ -119,8 +123,26 @@ def _vm_history(t, out):
 
 def _vm_seek(t, out):
     content = _s(t[0])
-    ranged = t[1][1] == "1"
-    t = [t[0]] + t[3:]
+    pb = t[1]
+    ranged = pb[1] == "1"
+    bit = lambda i: "true" if pb[i] == "1" else "false"
+    prof = "(mkProfile %s %s %s %s %s)" % tuple(bit(i) for i in range(5))
+    rest = t[3:]
+    kor = "None"
+    if rest[0] == "-":
+        rest = rest[1:]
+    else:
+        j, f = rest[0], rest[1]
+        rest = rest[2:]
+        c = {"dig-garbage": "KDigGarbage", "dig-drop": "KDigDrop", "len-inc": "KLenInc", "len-drop": "KLenDrop",
+             "type-other": "KTypeOther", "type-garbage": "KTypeGarbage", "type-drop": "KTypeDrop", "loc-drop": "KLocDrop",
+             "name-unknown": "KNameUnknown"}.get(f)
+        if f == "dig-other":
+            c = "(KDigOther %s)" % _s(rest[0]); rest = rest[1:]
+        if f == "status":
+            c = "(KStatus %s)" % rest[0]; rest = rest[1:]
+        kor = "(Some (%s%%nat, %s))" % (j, c)
+    t = [t[0]] + rest
     head, _, out = out.partition(" | ")
     if head != ("seeker" if ranged else "noseeker"):
         return "False"
@@ -156,7 +178,8 @@ def _vm_seek(t, out):
         else:
             ov = {"err": "SErr", "closed": "SClosed"}[o]
         exp.append("(%s, %s)" % (rqs, ov))
-    return "rsc_run %s %s (rsc_open %s (len %s)) [%s] = [%s]" % (modes, content, content, content, "; ".join(ops), "; ".join(exp))
+    return "rsc_run %s (range_srv %s (@nil N) %s %s) (rsc_open %s (len %s)) [%s] = [%s]" % (
+        modes, prof, content, kor, content, content, "; ".join(ops), "; ".join(exp))
 
 
 def _vm_gram(t, out):
@@ -254,20 +277,26 @@ CONFIG = {
     "also_translate": ["C20", "C15"],   # Model/Reference.v (C20) and Model/Paging.v (C15) are imported
     "timeout_thorough": 3600,
     "assumptions": [
-        "the hash function is a parameter H of the models (SHA-256 in the harness); the refinement theorem only needs that H yields well-formed digests (no collision-freeness): the body digest itself is checked by the consumer (C05)",
-        "mime.ParseMediaType is a parameter parse_mt (None = error); refinement assumes it is the identity on the media types the caller uses and on application/octet-stream",
-        "JSON decoding of a manifest's subject is a parameter subject_of (None = undecodable); refinement covers decodable manifests whose subject, if any, is pushed to a registry with the Referrers API (OCI-Subject), and Predecessors over that API (single page; pagination: C15); the client-side referrers tag schema is C14 (model prints UNJUDGED there)",
-        "Repository.ParseReference is the C20 model repo_parse (proved in C20); the correspondence uses references without '/' so that net/url registry validation is not involved",
-        "step 2 of the upload (Model/Location.v): Location following, the ':443' repair and the digest query are modelled on plain URLs (no user info, no IPv6 literal, unreserved characters, distinct query keys) as string manipulation and compared with the real PUT URL; other Location forms print UNJUDGED and are judged only by the net/url-based oracle; in the history model the Location stays abstract (repository, session)",
+        "the hash function is a parameter H of the models (SHA-256 in the harness); the refinement theorem only needs that H yields well-formed digests (no collision-freeness): the body digest itself is checked by the consumer (C05); only sha256 digests are generated",
+        "mime.ParseMediaType is a parameter parse_mt : str -> option str (None = error); refinement assumes it is the identity on the media types the caller uses and on application/octet-stream -- media types mime would rewrite (upper case, parameters) are outside the theorems and the generator (audit F9/F11: generateBlobDescriptor ignores mime's error, so a Content-Type like 'text/plain; a' yields 'text/plain' in the code and octet-stream in the model; not generated)",
+        "JSON decoding of a manifest's subject is ONE parameter subject_of of the bytes (None = undecodable) standing for the four decoders of push/delete; manifests that decode for Delete but not for the typed decoders of Push are not generated; refinement covers decodable manifests whose subject, if any, is pushed to a registry with the Referrers API (OCI-Subject), and Predecessors over that API (single page; pagination: composition with C15); the client-side referrers tag schema is C14 (model prints UNJUDGED for the whole history there, ~1% of the cases)",
+        "MaxMetadataBytes is a parameter limit (default regenerated from utils.go): limitSize on pushed/deleted indexable manifests and the bound on the body hashed by generateDescriptor are modelled; the refinement theorem assumes manifests no larger than the limit (larger ones are refused, after fix ed36700 never truncated); the byte size of a referrers index document is not modelled (no tiny limits with Predecessors)",
+        "Repository.ParseReference is the C20 model repo_parse (proved in C20); the correspondence uses references without '/' so that net/url registry validation is not involved; fully qualified references are C20's subject",
+        "op_ok / wf_hist: descriptors carry a VALID digest and a media type and are accurate for what the store holds. The client does not validate target.Digest itself: Fetch(desc{Digest: '../x'}) emits a non-spec URL -- a caller inconsistency outside the property's quantifier, not generated (audit F5)",
+        "`allowed` is a grammar over ABSTRACT requests (method, repository, endpoint, reference, query parameters, Content-Type/Length, Range); URL building (url.go: scheme, host, path, escaping of mount/from/artifactType) is covered only by the correspondence (fake registry parses real URLs) and the oracle's endpoint table SpecCheck on the raw http.Request; Accept is not constrained; `n` on /referrers (ReferrerListPageSize > 0, an oras-go extension the distribution spec does not define) is tolerated by SpecCheck and counted",
+        "loc_ok / no_status_corruption: a registry that answers a POST with another 2xx than the truth (201 for 202 or vice versa) makes the client follow it (upload to the Location it was given): a lying registry, not a contradiction the client could detect -- excluded from the theorem, generated, not judged",
+        "step 2 of the upload (Model/Location.v): Location following, the ':443' repair and the digest query are modelled on plain URLs (no user info, no IPv6 literal, unreserved characters, no dot segments, distinct query keys) as string manipulation and compared with the real PUT URL; other Location forms print UNJUDGED and are judged only by the net/url-based oracle; in the history model the Location stays abstract (repository, session)",
         "Predecessors over a PAGINATING registry: composition with C15 (Model/Paging.v page loop, its hypotheses on Link rendering/resolution and document sizes are inherited); artifact type of a manifest is a parameter atype",
-        "Repository options SkipReferrersGC, TagListPageSize, ReferrerListPageSize, MaxMetadataBytes (1 MiB) and HandleWarning are rotated by the generator and must not change any modelled observable; Warning headers: oracle only (every well-formed 299 warning of every response reaches HandleWarning once, in order; others ignored)",
-        "response bodies: how a body hands out its bytes (short reads of any chunk size; the last bytes together with io.EOF or before a separate (0, io.EOF)) is a parameter `modes` (one behaviour per body) of the readSeekCloser model and of C13_seek; the fake registry rotates these behaviours over all its bodies; caller-side content readers rotate over *bytes.Reader, io.NopCloser and an opaque chunking reader whenever the descriptor's size is accurate",
-        "net/http transport, redirects, chunked upload and the auth client are not modelled: the client is driven through remote.Client (no sockets); the fake registry builds *http.Response values directly",
-        "C13_refines_store_partial hypotheses (wf_hist): descriptors accurate for what the store holds; Resolve/FetchReference of a TAG through a HEAD request only against a registry that sends Docker-Content-Digest (known finding head-tag-no-digest-header; C13_refines_store_refuted is the witness)",
-        "the distribution-spec registry is one deterministic state machine per capability profile (digest header, range, Content-Length on GET, mount, referrers); registries that validate manifest contents or convert media types on Accept are outside",
+        "Seek: the reader is modelled against ANY server answering its Range requests (request shape/allowed, accepted 206 consistent in status and Content-Length) and, composed with the registry model of any range-capable profile, proved equal to an in-memory reader; offsets use Go's int64 arithmetic (wrap64); an invalid whence is not representable; the digest header of a 206 is not verified by the code (known finding seek-206-digest-unverified)",
+        "Repository options SkipReferrersGC, TagListPageSize, ReferrerListPageSize and HandleWarning are rotated by the generator and must not change any modelled observable; Warning headers: oracle only",
+        "response bodies: how a body hands out its bytes (short reads; the last bytes together with io.EOF or before it) is a parameter `modes` (per body) of the readSeekCloser model and of C13_seek; the fake registry rotates these behaviours over all its bodies; caller-side content readers rotate over *bytes.Reader, io.NopCloser and an opaque chunking reader whenever the descriptor's size is accurate",
+        "one deterministic registry state machine per capability profile (32 profiles), starting EMPTY (no pre-existing foreign content), one sibling repository as mount source (mount from a third/non-existent/same repository is not generated); registries that validate manifest contents or convert media types on Accept are outside; the error code of an error response is observable only for 404 NAME_UNKNOWN (errutil's other codes and messages are not compared)",
+        "the T layer regenerates constants and tables only (header names, zeroDigest, default manifest media types, the two indexing switch lists, defaultMaxMetadataBytes) + AST anchors; generateDescriptor / verifyContentDigest / generateBlobDescriptor are hand-written models tied by the correspondence (DESIGN's generated decision functions were not built; audit F10)",
+        "net/http transport, redirects, chunked upload, the Authorization re-use of the upload PUT and the auth client are not modelled: the client is driven through remote.Client (no sockets)",
+        "C13_refines_store_partial excludes Resolve/FetchReference of a TAG through a HEAD request against a registry that sends no Docker-Content-Digest (known finding head-tag-no-digest-header; tight: C13_resolve_tag_needs_header)",
     ],
     "level_text": "Coq theorems: (1) client o registry refines a content store with tags for every history of Push/Fetch/Exists/Delete/Resolve/FetchReference/Tag/PushReference/Mount/blob Resolve/FetchReference, every capability profile, ManifestMediaTypes option and referrers state (induction over the history with a registry invariant); (2) every request emitted against ANY server is in the request grammar `allowed`; (3) against ANY server a successful call implies a response consistent with the request (digest header, Content-Length, Content-Type, status, Location), plus the single-field-corruption form for Fetch; (4) readSeekCloser refines an in-memory reader for every Read/Seek script and every body behaviour (chunking, data with EOF; per body) and emits Range bytes=off-(size-1) exactly when the offset changes inside the blob; (5) Predecessors over the Referrers API returns exactly the stored manifests with that subject (inside the refinement theorem, for any registry state, and -- composed with C15 -- for any legal pagination); (6) the PUT of a two-step upload follows the Location (authority, path, query + digest) with the documented :443 repair only; (7) the digest-header hypothesis of (1) is tight in every registry state and all 32 profiles are covered (in-Coq computation). Tied to the code by translator-regenerated constants/tables, a differential run of the extracted models against remote.Repository over a fake registry whose complete request/response log is replayed through the extracted Registry.v, and an independent oracle",
-    "level_note": "refinement theorem is _partial: excludes resolving a tag by HEAD without Docker-Content-Digest (known finding, refuted witness proved), manifests with subjects on registries without the Referrers API / referrers state 'unsupported' (tag schema: C14), pagination (C15), inaccurate caller descriptors; net/http, mime, JSON are parameters / not modelled; net/url only for plain URLs",
+    "level_note": "after the audit: three defects fixed in the code (truncated manifest over MaxMetadataBytes, FetchReference ignoring the GET digest header on the HEAD path, Seek accepting a 206 of the wrong length) + blob-upload digest check; two known findings (head-tag-no-digest-header, seek-206-digest-unverified). The last sentence of the property is proved as 'success implies a consistent response' for every operation incl. Seek; URL construction and Warning pass-through are oracle/correspondence-only. refinement theorem is _partial: excludes resolving a tag by HEAD without Docker-Content-Digest (known finding, refuted witness proved), manifests with subjects on registries without the Referrers API / referrers state 'unsupported' (tag schema: C14), pagination (C15), inaccurate caller descriptors; net/http, mime, JSON are parameters / not modelled; net/url only for plain URLs",
     "technique": "machine-checked proof in Coq (refinement by induction over histories with a registry invariant; any-server lemmas for request grammar and response consistency; seek state-machine refinement) + translator-regenerated tables + model/implementation correspondence on full request/response traces",
     "explanation": "theorems over all histories/profiles/servers about Model/Registry.v + Model/RemoteClient.v; the extracted models are run on the same generated histories (rotating profiles, PlainHTTP, ManifestMediaTypes, referrers state, one corrupted response field, Read/Seek scripts) as registry/remote against harness/fakereg13 and compared on results and complete request/response logs; independent oracle = Go ground-truth store, distribution-spec endpoint table, must-fail table for contradicting corruptions, bytes.Reader for seeks",
 }
